@@ -151,5 +151,5 @@ Proof. vm_compute. split_and!; try done. repeat constructor. Qed.
 (* the in-place walk of an open directory fid no longer keeps the replaced entry's Readdir *)
 Example C13_ex_inplace_walk_drops_file :
   bad_use (final sess0 (srun sess0 [(OAttach 0 NOFID, [Tok 0 true 0]); (OOpen 0 0, []);
-                                    (OWalk 0 0 [[97]], [Tok 0 true 1]); (ORead 0, [])])) = [].
+                                    (OWalk 0 0 [[97]], [Tok 0 true 1]); (ORead 0 8, [])])) = [].
 Proof. vm_compute. reflexivity. Qed.
